@@ -80,6 +80,11 @@ namespace bluetoe {
     template < typename ... Options >
     class characteristic;
 
+    template < typename ... Options >
+    struct secondary_service;
+
+    struct is_secondary_service;
+
     namespace details {
 
         static constexpr std::uint16_t invalid_attribute_handle = 0;
@@ -330,6 +335,15 @@ namespace bluetoe {
 
                 return next_service_mapping< StartHandle, StartIndex, std::tuple< Services... >, Options... >::service_first_index_by_handle( handle );
             }
+        };
+
+        /*
+         * secondary_service< Options... > is a service< Options..., is_secondary_service >
+         */
+        template < std::uint16_t StartHandle, std::uint16_t StartIndex, typename ... Options, typename ... Services >
+        struct interate_service_index_mappings< StartHandle, StartIndex, std::tuple< ::bluetoe::secondary_service< Options... >, Services... > >
+            : interate_service_index_mappings< StartHandle, StartIndex, std::tuple< ::bluetoe::service< Options..., ::bluetoe::is_secondary_service >, Services... > >
+        {
         };
 
         /*
